@@ -150,3 +150,10 @@ package packets
 
 // verif:func packets.Packet.ReasonCodeValid
 //@ ensures success-is-valid: pk.ReasonCode == 0 ==> r0
+
+// ---- C24 / C42: PUBLISH validation ----
+// verif:func packets.Packet.PublishValidate
+//@ ensures alias-above-maximum-rejected: pk.Properties.TopicAlias > topicAliasMaximum ==> r0.Code != 0
+//@ ensures empty-topic-needs-alias: pk.TopicName == "" && pk.Properties.TopicAlias == 0 ==> r0.Code != 0
+//@ ensures qos-needs-packet-id: pk.FixedHeader.Qos > 0 && pk.PacketID == 0 ==> r0.Code != 0
+//@ ensures qos0-has-no-packet-id: pk.FixedHeader.Qos == 0 && pk.PacketID > 0 ==> r0.Code != 0
